@@ -13,6 +13,8 @@ pub struct Sweep {
     pub n: u64,
     pub case: Box<dyn Fn(u64, &mut Acc) + Sync>,
     pub exhaustive: bool,
+    /// environment variables the worker process sets before running any case (e.g. a non-C locale)
+    pub env: Vec<(String, String)>,
 }
 
 impl Sweep {
@@ -23,9 +25,23 @@ impl Sweep {
             n,
             case: Box::new(case),
             exhaustive: true,
+            env: vec![],
+        }
+    }
+    pub fn with_env(mut self, env: &[(&str, &str)]) -> Sweep {
+        self.env = env.iter().map(|(k, v)| (k.to_string(), v.to_string())).collect();
+        self
+    }
+    /// Called in a worker process before any case runs and before any other thread exists.
+    pub fn apply_env(&self) {
+        for (k, v) in &self.env {
+            std::env::set_var(k, v);
         }
     }
 }
+
+/// A German UTF-8 locale in every variable a locale-aware lookup could consult.
+pub const LOCALE_DE: [(&str, &str); 4] = [("LANG", "de_DE.UTF-8"), ("LC_ALL", "de_DE.UTF-8"), ("LC_MESSAGES", "de_DE.UTF-8"), ("LANGUAGE", "de_DE:de")];
 
 pub const STALL: Duration = Duration::from_secs(10);
 pub const WORKER_MEM_REFUSE: usize = 256 << 20;
@@ -60,6 +76,7 @@ pub fn worker_main(s: &Sweep, start: u64, stride: u64, end: u64) -> ! {
         eprintln!("MACHINERY: worker and parent disagree about the domain size ({} vs {})", s.n, end);
         std::process::exit(3);
     }
+    s.apply_env();
     worker_loop(start, stride, end, |i, acc| (s.case)(i, acc))
 }
 
